@@ -29,7 +29,7 @@ let range_of = function
   | List [a; b] -> Some (z_of_int (int a), z_of_int (int b))
   | _ -> failwith "range"
 
-let oz_of = function Atom "nil" -> None | x -> Some (z_of_int (int x))
+let oz_of = function Atom "nil" -> None | x -> Some (zint x)
 
 let json_blob (b : blob) : string =
   match b with
@@ -93,7 +93,7 @@ let raw_of (locs : (int, string) Hashtbl.t) (x : Sexp.t) : rawreq option =
   | List [Atom "raw"; m; p; List params; List acc; ct; clen; cr; rg; st; b] ->
       Some { q_method = s m; q_path = s p;
              q_params = List.map (function List [k; v] -> (s k, s v) | _ -> failwith "param") params;
-             q_accept = List.map s acc; q_ctype = s ct; q_clen = z_of_int (int clen); q_cr = s cr;
+             q_accept = List.map s acc; q_ctype = s ct; q_clen = zint clen; q_cr = s cr;
              q_range = range_of rg; q_state = oz_of st; q_body = s b }
   | _ -> None
 
@@ -115,7 +115,7 @@ let run_probe (line : string) : string =
 let run_case (line : string) : string =
   match parse line with
   | List [Atom "case"; id; cfg; List [Atom "views"; List views]; List [Atom "reqs"; List reqs]] ->
-      let cfg = cfg_of cfg in
+      let cfg = ref (cfg_of cfg) in
       let vt : (string, jview) Hashtbl.t = Hashtbl.create 64 in
       List.iter (function List [b; v] -> Hashtbl.replace vt (str b) (view_of v) | _ -> failwith "views") views;
       let env = {
@@ -138,27 +138,33 @@ let run_case (line : string) : string =
                  let cnt = ref 0 in
                  while !continue && !cnt < 60 do
                    incr cnt;
-                   let (s', rsp) = step cfg env !st (QTagList (cl (str r), cl (str n), cl !last)) in
+                   let (s', rsp) = step !cfg env !st (QTagList (cl (str r), cl (str n), cl !last)) in
                    st := s';
                    pages := json_resp rsp :: !pages;
                    if rsp.rs_link = [] then continue := false else last := lc rsp.rs_link
                  done;
                  outs := Printf.sprintf "{\"pages\":[%s]}" (String.concat "," (List.rev !pages)) :: !outs
+             | List [Atom "setcfg"; c] ->
+                 (* restart with another configuration on the same storage *)
+                 cfg := cfg_of c;
+                 let (s', r) = step !cfg env !st QRestart in
+                 st := s';
+                 outs := json_resp r :: !outs
              | List (Atom "group" :: xs) ->
                  (* several requests answered as one step (used for requests whose body delivery is
                     interleaved with other requests on the implementation) *)
                  let rs = List.map (fun y ->
                      match raw_of locs y with
-                     | Some rq -> let (s', r) = serve cfg env !st rq in st := s'; json_resp r
+                     | Some rq -> let (s', r) = serve !cfg env !st rq in st := s'; json_resp r
                      | None ->
                      match req_of locs y with
                      | None -> "{\"skip\":true}"
-                     | Some q -> let (s', r) = step cfg env !st q in st := s'; json_resp r) xs in
+                     | Some q -> let (s', r) = step !cfg env !st q in st := s'; json_resp r) xs in
                  outs := Printf.sprintf "{\"group\":[%s]}" (String.concat "," rs) :: !outs
              | List (Atom "raw" :: _) ->
                  (match raw_of locs x with
                   | Some rq ->
-                      let (s', r) = serve cfg env !st rq in
+                      let (s', r) = serve !cfg env !st rq in
                       st := s';
                       if r.rs_loc <> [] then Hashtbl.replace locs i (lc r.rs_loc);
                       outs := json_resp r :: !outs
@@ -167,7 +173,7 @@ let run_case (line : string) : string =
              match req_of locs x with
              | None -> outs := "{\"skip\":true}" :: !outs
              | Some q ->
-                 let (s', r) = step cfg env !st q in
+                 let (s', r) = step !cfg env !st q in
                  st := s';
                  if r.rs_loc <> [] then Hashtbl.replace locs i (lc r.rs_loc);
                  outs := json_resp r :: !outs) reqs
